@@ -56,6 +56,10 @@ package momentum
 //@ ensures[C02] len(result) == max(0, len(closings) - (r.IdlePeriod()))
 //@ ensures[C03] consumed(closings) == len(closings) && closed(result)
 //@ ensures[C04] forall kk :: 0 <= kk && kk < len(result) ==> hor(result, kk) <= hor(closings, kk + (r.IdlePeriod()))
+//@ guarantees[C01] "gain-loss" forall j :: 0 <= j && j < len(closings) - 1 ==> res(KeepPositives, 0)[j] == (closings[j+1] - closings[j] > 0 ? closings[j+1] - closings[j] : 0) && res(KeepNegatives, 0)[j] == (closings[j+1] - closings[j] < 0 ? closings[j+1] - closings[j] : 0)
+//@ guarantees[C01] "formula" forall k :: 0 <= k && k < len(result) ==> result[k] == 100 - 100 * powr(1 + rmaS(res(KeepPositives, 0), r.Rma.Period, k) / (0 - rmaS(res(KeepNegatives, 0), r.Rma.Period, k)), 0 - 1)
+//@ guarantees[C15] "range" forall k :: 0 <= k && k < len(result) && rmaS(res(KeepNegatives, 0), r.Rma.Period, k) < 0 ==> 0 <= result[k] && result[k] <= 100
+//@ use rma_nonneg(res(KeepPositives, 0), r.Rma.Period, _)
 
 //@ func StochasticOscillator.Compute
 //@ requires s.Max.Period >= 1 && s.Min.Period == s.Max.Period && s.Sma.Period >= 1 && consumed(highs) == 0 && consumed(lows) == 0 && consumed(closings) == 0 && len(highs) == len(lows) && len(highs) == len(closings)
